@@ -1001,7 +1001,7 @@ def c05(out):
     samples = []
     for r in scan_records(trace):
         n += 1
-        if r["hint"] and r["out_w"]:
+        if r.get("ev") == "udiff" and r["hint"] and r["out_w"]:
             key = json.dumps([r["old"], r["new"], r["radius"], r["header"], r["mode"], r["alg"]])
             if key not in seen:
                 seen.add(key)
@@ -1033,7 +1033,7 @@ def c05(out):
         by_case.setdefault(c, set()).update(cl)
     viol, known = [], []
     for c, cl in sorted(by_case.items()):
-        rel = cl & {"patch", "patch_rep", "writer_display", "writer_hunks", "writer_sink", "panic"}
+        rel = cl & {"patch", "patch_rep", "patch_huge", "writer_display", "writer_hunks", "writer_sink", "panic"}
         if "patch" in rel and "patch_rep" not in rel:
             known.append(c)
             rel.discard("patch")
@@ -1053,7 +1053,7 @@ def c05(out):
     sfx = "_t" if out.tier == "thorough" else ""
     p2(out, "MCUdiff.tla", ["MCUdiff" + sfx, "MCUdiffRepair" + sfx], coverage=False)
     expect_violation(out, "MCUdiff.tla", "MCUdiffWitness", "AlwaysAccepted")
-    p3_fn(out, "MCUdiff.tla", "MCUdiffDump", {"patch", "patch_rep", "writer_display", "writer_hunks", "writer_sink", "panic"},
+    p3_fn(out, "MCUdiff.tla", "MCUdiffDump", {"patch", "patch_rep", "patch_huge", "writer_display", "writer_hunks", "writer_sink", "panic"},
           known_pair=("patch", "patch_rep"))
     builder_family(out, {"builder_render"})
     finish_counts(out)
